@@ -10,8 +10,8 @@ Obligations (all CBMC on the real mir.c, state constructed directly):
   hist2.<cfg>.sN          two names: shapes of x and y in M1.M2.M3 = <cfg>; EVERY history of N steps over all 7 step kinds
   full.<cfg>.sN           as hist2, without the exclusion described under 'assumptions'
   redef.func-after-*      that excluded case as one concrete history each
-hist*/full* are explored with `cbmc --paths` (one symbolic-execution path per history), the redefinition permission is a
-symbolic input wherever a configuration contains an exported function.
+hist*/full* are explored with `cbmc --paths` (one symbolic-execution path per history); configurations with an exported function
+are run once with the redefinition permission off (.p0) and once with it on (.p1).
 """
 import itertools
 import os
@@ -69,18 +69,21 @@ def common(c, nsteps):
 
 
 def hist_ob(name, c, nsteps, ops, exclude, timeout):
-    loops, defs = common(c, nsteps)
-    defs += ["H_NO_WITNESS", "H_OPS=" + ",".join(str(o) for o in ops), "H_NOPS=%d" % len(ops)]
-    if exclude:
-        defs.append("H_FUNC_OVER_NONFUNC=0")
-    has_func = F in c
-    if not has_func:
-        defs.append("H_PERM=0")   # the flag is only read when an exported function is loaded
-    desc = "M1(x:%s y:%s) M2(x:%s y:%s) M3(x:%s y:%s)" % tuple(SHAPE[v] for v in c)
-    return Ob(name, "C13/link_hist.c", defs=defs, loops=loops, unwind=2, paths=True, object_bits=12, timeout=timeout, flags=FS_FLAGS,
-              sample="%s; every history of %d steps over %d step kinds (%d histories)%s%s" %
-                     (desc, nsteps, len(ops), len(ops) ** nsteps, ", redefinition permission symbolic" if has_func else "",
-                      "; loads of a function over a non-function definition excluded" if exclude else ""))
+    """One obligation per value of the redefinition permission (two for configurations with an exported function, one otherwise:
+    the flag is only read when an exported function is loaded)."""
+    res = []
+    for perm in ((0, 1) if F in c else (0,)):
+        loops, defs = common(c, nsteps)
+        defs += ["H_NO_WITNESS", "H_OPS=" + ",".join(str(o) for o in ops), "H_NOPS=%d" % len(ops), "H_PERM=%d" % perm]
+        if exclude:
+            defs.append("H_FUNC_OVER_NONFUNC=0")
+        desc = "M1(x:%s y:%s) M2(x:%s y:%s) M3(x:%s y:%s)" % tuple(SHAPE[v] for v in c)
+        res.append(Ob(name + (".p%d" % perm if F in c else ""), "C13/link_hist.c", defs=defs, loops=loops, unwind=2, paths=True, object_bits=12,
+                      timeout=timeout, flags=FS_FLAGS,
+                      sample="%s; redefinition permission %s; every history of %d steps over %d step kinds (%d histories)%s" %
+                             (desc, "on" if perm else "off", nsteps, len(ops), len(ops) ** nsteps,
+                              "; loads of a function over a non-function definition excluded" if exclude else "")))
+    return res
 
 
 def hist1(shapes, nsteps, timeout):
@@ -169,24 +172,24 @@ def obligations(tier):
     oa = oa25()
     if quick:
         for m in CORE1:
-            obs.append(hist1(m, 4, 1800))
+            obs += (hist1(m, 4, 1800))
         for c in oa:
-            obs.append(hist2(c, 3, 1200))
-        obs.append(hist2((F, 0, I, 0, D, 0), 3, 1200, kind="full", exclude=False))
+            obs += (hist2(c, 3, 1200))
+        obs += (hist2((F, 0, I, 0, D, 0), 3, 1200, kind="full", exclude=False))
     else:
         for m in MULTISETS:
-            obs.append(hist1(m, 4, 3600))
-        obs.append(hist1(CORE1[0], 5, 7200))
+            obs += (hist1(m, 4, 3600))
+        obs += (hist1(CORE1[0], 5, 7200))
         extra = set()
         while len(extra) < 6:
             c = tuple(rnd.randrange(5) for _ in range(6))
             if c not in oa and c not in FOUR:
                 extra.add(c)
         for c in oa + FOUR:
-            obs.append(hist2(c, 4, 7200))
+            obs += (hist2(c, 4, 7200))
         for c in sorted(extra):
-            obs.append(hist2(c, 3, 3600))
-        obs.append(hist2((F, 0, I, 0, D, 0), 4, 7200, kind="full", exclude=False))
+            obs += (hist2(c, 3, 3600))
+        obs += (hist2((F, 0, I, 0, D, 0), 4, 7200, kind="full", exclude=False))
     return obs
 
 
@@ -200,8 +203,8 @@ META = {
         "history": "EVERY sequence of exactly N steps. hist1: N = 4 (5 for one configuration in thorough), step kinds load M1|M2|M3, load_external y (a fresh "
                    "address each time), link with resolver NULL | a resolver that knows only y (6 kinds; the code does not distinguish names, so the "
                    "one-name runs use y, the name the resolver knows). hist2: N = 3 (quick) / 4 (thorough), all 7 kinds (also load_external x). "
-                   "All checks are made when a step completes, so N-step histories cover the shorter ones. Redefinition permission: symbolic input "
-                   "(set once before the history) in every configuration with an exported function.",
+                   "All checks are made when a step completes, so N-step histories cover the shorter ones. Redefinition permission (set once before the history): "
+                   "both values, one obligation each (.p0/.p1), in every configuration with an exported function (it is only read when one is loaded).",
         "add_item": "every sequence of 3 (quick) / 4 (thorough) items of one name in one module, kinds over {import, export, forward, proto, data, bss, func}",
         "exploration": "`cbmc --paths lifo`: one symbolic-execution path per history. Merging the alternatives of a step (plain BMC) makes every item pointer "
                        "symbolic: no verdict for 2 steps in 170 s. pin.* / redef.* / additem.pin.* are single concrete histories with reachability witnesses",
